@@ -188,6 +188,7 @@ type c01Run struct {
 	to     map[string][]string  // token -> header To addresses
 	pol    *models.Policy
 	txnBase []int // number of the first transaction of each client, counted over all clients
+	refused map[string][]string // token -> mailboxes of a transaction refused after an injected disk fault
 }
 
 func (r *c01Run) addExpect(mailbox, token string, n int, dup bool) {
@@ -298,6 +299,18 @@ func (r *c01Run) runClient(ci int, txs []smtpTxn) {
 					// server said so: each of ITS recipients may or may not have a copy
 					complete(false)
 					c.Stat("probe.transaction_refused_after_disk_fault", 1)
+					// ... but not every one of them: the server said the message was not stored
+					var mbs []string // one entry per accepted, storable recipient (a mailbox named twice is expected to get two copies)
+					for _, a := range accepted {
+						_, dom, _ := models.SplitAddress(a)
+						if mb, ok := models.MailboxName(r.k.Sw.Naming, a); ok && r.pol.StoreRecipient(dom) {
+							mbs = append(mbs, mb)
+						}
+					}
+					if r.refused == nil {
+						r.refused = map[string][]string{}
+					}
+					r.refused[t.Token] = mbs
 				}
 				open, accepted = false, nil
 			}
@@ -418,6 +431,29 @@ func runC01(c *Ctx, cs Case) {
 				what = "duplicated"
 			}
 			c.Failf("message-"+what, "mailbox %q holds %d copies of %s, expected %d..%d (naming=%s)", parts[0], n, parts[1], e.min, e.max, k.Sw.Naming)
+		}
+	}
+	var rtoks []string
+	for tk := range r.refused {
+		rtoks = append(rtoks, tk)
+	}
+	sort.Strings(rtoks)
+	for _, tk := range rtoks {
+		mbs := r.refused[tk]
+		want := map[string]int{}
+		for _, mb := range mbs {
+			want[mb]++
+		}
+		have := 0
+		for mb, n := range want {
+			if g := got[mb+"\x00"+tk]; g >= n {
+				have += n
+			} else {
+				have += g
+			}
+		}
+		if len(mbs) > 0 && have == len(mbs) {
+			c.Failf("refused-transaction-fully-stored", "%s was refused after the data (disk fault injected), yet every one of its recipients' mailboxes %v holds it: a client that retries delivers it twice", tk, mbs)
 		}
 	}
 	c.Stat("probe.messages_stored", int64(stored))
